@@ -99,14 +99,41 @@ fn to_event(e: &Ev) -> Event {
             errors: if *b { vec!["x".into()] } else { vec![] },
             response_errors: if *c { vec!["y".into()] } else { vec![] },
         },
-        K::Other(v) => match v % 4 {
-            0 => EventKind::ToolTaskCancelRequested { task_id: tid(1), reason: "r".into() },
-            1 => EventKind::CheckpointRewound { checkpoint_id: "c".into(), label: "l".into(), files: vec![] },
-            2 => EventKind::ContinuityMessageAppended { actor_id: "a".into(), origin: "o".into(), content: "hi".into() },
-            _ => EventKind::OpenResponsesResponseFirstByte { request_index: 0 },
-        },
+        K::Other(v) => other_kind(*v),
     };
     Event { id: format!("{}", e.ident), session_id: format!("s{}", e.ident % 3), timestamp_ms: e.ts, seq: e.seq, kind }
+}
+
+fn other_kind(v: u64) -> EventKind {
+    let t = |n: u64| -> String { ["", "a", "héllo wörld €", "😀😀😀😀😀😀😀😀😀😀😀😀😀😀😀😀😀😀😀😀😀😀😀😀😀😀😀😀😀😀😀😀😀😀😀😀😀😀😀😀😀😀", "line1\nline2\ttab", "\u{0}\u{1b}[31m"][(n % 6) as usize].to_string() };
+    match v % 26 {
+        0 => EventKind::ToolTaskCancelRequested { task_id: tid(1), reason: t(v / 26) },
+        1 => EventKind::CheckpointRewound { checkpoint_id: t(v / 26), label: t(v / 26 + 1), files: vec![t(2), t(3)] },
+        2 => EventKind::ContinuityMessageAppended { actor_id: "a".into(), origin: "o".into(), content: t(v / 26) },
+        3 => EventKind::OpenResponsesResponseFirstByte { request_index: u64::MAX },
+        4 => EventKind::ContinuityCreated { workspace: t(v / 26), title: Some(t(v / 26 + 2)) },
+        5 => EventKind::ContinuityRunSpawned { run_session_id: t(3), message_id: t(2), actor_id: None, origin: Some(t(1)) },
+        6 => EventKind::ContinuityContextSelectionDecided { run_session_id: t(1), message_id: t(2), compiler_id: t(3), compiler_strategy: t(v / 26), limits: json!({"a": [1, 2, {"b": null}]}), compaction_checkpoint: None, compaction_checkpoints: vec![], resets: vec![], reason: Some(json!("x")), actor_id: t(1), origin: t(1) },
+        7 => EventKind::ContinuityContextCompiled { run_session_id: t(1), bundle_artifact_id: "a".repeat(64), compiler_id: t(2), compiler_strategy: t(3), from_seq: u64::MAX, from_message_id: None, actor_id: t(1), origin: t(1) },
+        8 => EventKind::ContinuityProviderCursorUpdated { provider: t(2), endpoint: None, model: Some(t(3)), cursor: Some(json!({"k": t(3)})), action: t(1), reason: None, run_session_id: None, actor_id: t(1), origin: t(1) },
+        9 => EventKind::ContinuityCompactionCheckpointCreated { checkpoint_id: t(1), cut_rule_id: t(2), summary_kind: t(3), summary_artifact_id: "b".repeat(64), from_seq: 0, from_message_id: None, to_seq: u64::MAX, to_message_id: Some(t(3)), actor_id: t(1), origin: t(1) },
+        10 => EventKind::ContinuityCompactionAutoScheduleDecided { decision_id: t(1), policy_id: t(2), decision: t(3), execute: true, stride_messages: 0, max_new_checkpoints: u32::MAX, block_on_inflight: false, message_count: u64::MAX, cut_rule_id: t(1), planned: vec![rip_kernel::CompactionPlannedCutPoint { target_message_ordinal: 1, to_seq: 2, to_message_id: t(3) }], job_id: None, job_kind: None, reason: None, actor_id: t(1), origin: t(1) },
+        11 => EventKind::ContinuityJobSpawned { job_id: tid(v / 26 % 3), job_kind: t(2), details: None, actor_id: t(1), origin: t(1) },
+        12 => EventKind::ContinuityJobEnded { job_id: tid(v / 26 % 3), job_kind: t(2), status: t(3), result: None, error: Some(t(3)), actor_id: t(1), origin: t(1) },
+        13 => EventKind::ContinuityRunEnded { run_session_id: t(1), message_id: t(2), reason: t(3), actor_id: None, origin: None },
+        14 => EventKind::ContinuityToolSideEffects { run_session_id: t(1), tool_id: t(2), tool_name: t(3), affected_paths: Some(vec![t(3), t(2)]), checkpoint_id: None, actor_id: t(1), origin: t(1) },
+        15 => EventKind::ContinuityBranched { parent_thread_id: t(3), parent_seq: u64::MAX, parent_message_id: None, actor_id: t(1), origin: t(1) },
+        16 => EventKind::ContinuityHandoffCreated { from_thread_id: t(3), from_seq: 0, from_message_id: None, summary_artifact_id: None, summary_markdown: Some(t(3)), actor_id: t(1), origin: t(1) },
+        17 => EventKind::OpenResponsesRequest { endpoint: t(3), model: None, request_index: 0, kind: t(1), body_artifact_id: "c".repeat(64), body_bytes: u64::MAX, total_bytes: 0, truncated: true },
+        18 => EventKind::OpenResponsesRequestStarted { endpoint: t(3), model: Some(t(2)), request_index: 1, kind: t(1) },
+        19 => EventKind::OpenResponsesResponseHeaders { request_index: 0, status: 599, request_id: Some(t(3)), content_type: None },
+        20 => EventKind::CheckpointCreated { checkpoint_id: t(1), label: t(3), created_at_ms: u64::MAX, files: vec![t(3)], auto: true, tool_name: Some(t(2)) },
+        21 => EventKind::ToolTaskCancelled { task_id: tid(2), reason: t(3), wall_time_ms: Some(u64::MAX) },
+        22 => EventKind::ToolTaskStdinWritten { task_id: tid(0), chunk_b64: t(3) },
+        23 => EventKind::ToolTaskResized { task_id: tid(0), rows: u16::MAX, cols: 0 },
+        24 => EventKind::ToolTaskSignalled { task_id: tid(0), signal: t(3) },
+        _ => EventKind::ToolEnded { tool_id: tid(7), exit_code: i32::MIN, duration_ms: u64::MAX, artifacts: Some(json!({"stdout": {"artifact_id": "d".repeat(64)}, "x": ["e".repeat(64), 3, null]})) },
+    }
 }
 
 fn coq_k(k: &K) -> String {
@@ -228,6 +255,56 @@ fn run_impl(c: &Case) -> Obs {
     Obs { enc: out, oracle_fail: fail }
 }
 
+/// Totality + determinism of the renderers (layout is not modelled): every overlay, both views,
+/// both modes, degenerate terminal sizes.  Returns a digest of everything rendered.
+fn render_all(c: &Case) -> String {
+    use ratatui::{backend::TestBackend, Terminal};
+    use rip_tui::{render, Overlay, RenderMode};
+    let mut st = TuiState::new(c.max_frames as usize, c.max_out as usize);
+    st.auto_follow = c.af;
+    for e in &c.evs {
+        st.update(to_event(e));
+    }
+    st.set_now_ms(u64::MAX);
+    let overlays = vec![
+        Overlay::None,
+        Overlay::Activity,
+        Overlay::ToolDetail { tool_id: tid(0) },
+        Overlay::ToolDetail { tool_id: "nope".into() },
+        Overlay::TaskList,
+        Overlay::TaskDetail { task_id: tid(1) },
+        Overlay::TaskDetail { task_id: "nope".into() },
+        Overlay::ErrorDetail { seq: st.last_error_seq.unwrap_or(3) },
+        Overlay::ErrorDetail { seq: u64::MAX },
+        Overlay::StallDetail,
+    ];
+    let mut digest = Distinct::default();
+    let mut acc = String::new();
+    for (w, h) in [(20u16, 8u16), (60, 20), (120, 40), (200, 60)] {
+        for ov in &overlays {
+            for raw in [false, true] {
+                for mode in [RenderMode::Json, RenderMode::Decoded] {
+                    st.overlay = ov.clone();
+                    if (st.output_view == rip_tui::OutputViewMode::Raw) != raw {
+                        st.toggle_output_view();
+                    }
+                    let mut terminal = Terminal::new(TestBackend::new(w, h)).expect("terminal");
+                    terminal.draw(|f| render(f, &st, mode, "input €")).expect("draw");
+                    let buf = terminal.backend().buffer().clone();
+                    let mut s = String::new();
+                    for cell in buf.content() {
+                        s.push_str(cell.symbol());
+                    }
+                    digest.add(&s);
+                    acc.push_str(&format!("{}:", s.len()));
+                }
+            }
+        }
+    }
+    st.open_selected_detail();
+    format!("{acc}{}", digest.count())
+}
+
 fn gen_text(r: &mut Rng, big: bool) -> String {
     const ALPH: [&str; 12] = ["a", "b", " ", "\n", "é", "€", "😀", "\u{a0}", "\u{2003}", "\u{200b}", "x", "\u{10ffff}"];
     let n = if big { r.range(2000, 9000) } else { *r.pick(&[0, 0, 1, 1, 2, 3, 5, 9, 17]) };
@@ -296,7 +373,7 @@ fn gen_case(r: &mut Rng, long: bool) -> Case {
             12 => K::TaskDelta(id, r.below(3), gen_text(r, big)),
             13 => K::CheckpointFailed,
             14 => K::ProviderEvent(r.chance(1, 4), r.chance(1, 4), r.chance(1, 4)),
-            _ => K::Other(r.below(4)),
+            _ => K::Other(r.below(26 * 6)),
         };
         evs.push(Ev { seq: s, ts: 1000 + i * 3 + r.below(3), k, ident: i });
         seq = if mode == 4 { seq.saturating_sub(1) } else { seq.saturating_add(1) };
@@ -336,6 +413,8 @@ fn corpus() -> Vec<Case> {
         Case { max_frames: 10, max_out: 100, af: true, evs: vec![e(0, 0), e(5, 1)], probes: vec![0, 1, 4, 5, 6] },
         Case { max_frames: 2, max_out: 100, af: false, evs: vec![e(3, 0), e(3, 1), e(3, 2)], probes: vec![3, 4, 5] },
         Case { max_frames: 2, max_out: 100, af: true, evs: vec![e(u64::MAX, 0), e(u64::MAX, 1), e(0, 2)], probes: vec![0, u64::MAX, u64::MAX - 1] },
+        // S18 witness: running tool + error chip on a 20-column canvas cut the chips line inside a glyph
+        Case { max_frames: 10, max_out: 100, af: true, evs: vec![Ev { seq: 0, ts: 1, k: K::ToolStarted(0), ident: 0 }, Ev { seq: 1, ts: 2, k: K::CheckpointFailed, ident: 1 }], probes: vec![0, 1] },
     ]
 }
 
@@ -355,6 +434,19 @@ fn main() {
         all.push(gen_case(&mut r, i % 10 == 9));
     }
     for (i, c) in all.iter().enumerate() {
+        if i % 4 == 0 || i < 4 {
+            let c3 = c.clone();
+            res.oracle_checks += 1;
+            res.bump("render_passes");
+            match std::panic::catch_unwind(move || (render_all(&c3), render_all(&c3))) {
+                Err(_) => res.oracle_violations.push(OracleViolation { case_id: i as i64, what: "rip_tui::render panicked".into(), class: "render_panic".into(), replay: case_json(c) }),
+                Ok((a1, a2)) => {
+                    if a1 != a2 {
+                        res.oracle_violations.push(OracleViolation { case_id: i as i64, what: "rip_tui::render gave two different screens for the same state".into(), class: "render_nondeterministic".into(), replay: case_json(c) });
+                    }
+                }
+            }
+        }
         let c2 = c.clone();
         let got = std::panic::catch_unwind(move || {
             let o1 = run_impl(&c2);
